@@ -76,6 +76,7 @@ type Path struct {
 	curHarness  string
 	loopHits    map[string]int
 	bounds      map[string]int64
+	model       Model // a model of pc (nil = unknown)
 }
 
 
@@ -131,6 +132,9 @@ func (p *Path) learn(c *Term, v bool) {
 func (p *Path) addPC(c *Term) {
 	if c.IsTrue() {
 		return
+	}
+	if p.model != nil && c.Eval(p.model, map[*Term]uint64{}) != 1 {
+		p.model = nil
 	}
 	p.pc = append(p.pc, c)
 	p.learn(c, true)
@@ -228,22 +232,49 @@ func (p *Path) Branch(c *Term) bool {
 		}
 		return d.B
 	}
-	rt, _ := p.query(c, false)
+	nc := p.pool.BNot(c)
+	if p.model != nil {
+		// the cached model of the path condition shows one side feasible for free
+		mv := c.Eval(p.model, map[*Term]uint64{}) == 1
+		other := nc
+		if !mv {
+			other = c
+		}
+		ro, mo := p.query(other, true)
+		if ro == Unsat {
+			p.record(Decision{K: 'b', B: mv, Forced: true})
+			p.learn(c, mv)
+			return mv
+		}
+		p.altWith(Decision{K: 'b', B: false})
+		p.record(Decision{K: 'b', B: true})
+		p.addPC(c)
+		if !mv {
+			p.model = mo // model of pc ∧ c
+		}
+		return true
+	}
+	rt, mt := p.query(c, true)
 	if rt == Unsat {
 		p.record(Decision{K: 'b', B: false, Forced: true})
 		p.learn(c, false)
 		return false
 	}
-	nc := p.pool.BNot(c)
 	rf, _ := p.query(nc, false)
 	if rf == Unsat {
 		p.record(Decision{K: 'b', B: true, Forced: true})
 		p.learn(c, true)
+		if rt == Sat {
+			p.model = mt
+		}
 		return true
 	}
 	p.altWith(Decision{K: 'b', B: false})
 	p.record(Decision{K: 'b', B: true})
 	p.addPC(c)
+	if rt == Sat {
+		p.model = mt
+	}
 	return true
 }
 
